@@ -5,7 +5,7 @@ from mc import core, det, vnet, fe, xstate, sse
 PROPERTY = 'C11'
 ENGINE = 'E2 explicit-state search (BFS to fixpoint + all histories to depth k, no dedup) over the real client Service (fresh object per operation, CLI style) against a live server on the E3 virtual network'
 LEVEL = 'model_checking'
-ALPHABET = ['create', 'create-invalid', 'create-again', 'genkey', 'encrypt', 'upload-config', 'upload-index', 'search']
+ALPHABET = ['create', 'create-invalid', 'create-invalid2', 'create-again', 'genkey', 'encrypt', 'upload-config', 'upload-index', 'search']
 DEPTH = {'quick': 5, 'thorough': 6}
 B_CREATED, B_CFG_UP, B_KEY, B_ENC, B_IDX_UP = 1, 2, 4, 8, 16
 NO_SID = 'f' * 64
@@ -58,6 +58,8 @@ class ClientSystem:
         self.cfg['param_identifier_size'] = 8
         self.bad_cfg = dict(self.cfg)
         self.bad_cfg['param_lambda' if 'param_lambda' in self.cfg else 'param_k_prime'] = 17
+        self.bad_cfg2 = dict(self.cfg)
+        self.bad_cfg2['param_lambda' if 'param_lambda' in self.cfg else 'param_k_prime'] = 64      # an AES-XTS size, not an AES-CBC key size
 
     def fresh(self):
         s = Sut()
@@ -108,7 +110,7 @@ class ClientSystem:
         f = s.flags
         if ev == 'create':
             return not f & B_CREATED
-        if ev in ('create-invalid', 'create-again'):
+        if ev in ('create-invalid', 'create-invalid2', 'create-again'):
             return False
         if ev == 'genkey':
             return bool(f & B_CREATED) and not f & B_KEY
@@ -134,8 +136,8 @@ class ClientSystem:
                 Service = self.m['cservice'].Service
                 fresh = cl._call(lambda: Service())
                 cl._call(fresh.handle_create_config, cfg)
-            elif ev in ('create', 'create-invalid'):
-                cfg = copy.deepcopy(self.cfg if ev == 'create' else self.bad_cfg)
+            elif ev in ('create', 'create-invalid', 'create-invalid2'):
+                cfg = copy.deepcopy(self.cfg if ev == 'create' else self.bad_cfg if ev == 'create-invalid' else self.bad_cfg2)
                 if not cl.sid:
                     sid_before = set(os.listdir(str(self.m['cfm']._PROGRAM_PATH)))
                     try:
